@@ -210,6 +210,9 @@ def gammas(run):
     for gl in ((2,) if quick else (2, 3)):
         for nrow in ((5,) if quick else (4, 5, 7)):
             out.append(({"strategy": "group_by", "L": 1, "nrow": nrow, "header": "explicit", "heights": [1, 2], "group_by_lines": gl}, 5))
+    # the consumed key column sits in the middle of the frame, widths unequal
+    for strat in ("page_by", "subline"):
+        out.append(({"strategy": strat, "L": 1, "nrow": 6, "header": "explicit", "heights": [1, 2], "key_not_first": True}, 4 if quick else 5))
     # rows that need their second line only because of leading blanks / no-break spaces (indentation takes width)
     for ind in ("lead", "nbsp"):
         for nrow in ((5,) if quick else (4, 6, 9)):
